@@ -36,6 +36,7 @@ inductive Ev where
   | looked (k : Nat) (r : Option Nat)
   | owner (a : Nat) (r : Option Nat)
   | stats (alloc total : Nat)
+  | util (kind : String)
   | nop
   deriving Repr
 
@@ -94,6 +95,9 @@ def check (g : Geo) (m : Mon) : Ev → Mon × List Verdict
       else (m, (PoolSpec.check g m.mon (.owner a r)).2)
     | _, _ => (m, (PoolSpec.check g m.mon (.owner a r)).2)
   | .stats al tot => (m, (PoolSpec.check g m.mon (.stats al tot)).2)
+  | .util kind =>
+    (m, if kind == "zero" || kind == "ratio" then []
+        else [("utilisation", s!"the reported utilisation is '{kind}', not allocated/total")])
   | .nop => (m, [])
 
 end Bng.LeaseSpec
